@@ -644,4 +644,107 @@ def F34F.json (v : F34F) : J :=
 def F19.parse (input : Text) : Res Dec := Res.ofOption (parseAmountMaxLen input 17)
 def F19.ser (d : Dec) : Text := formatAmount d.normalize 2
 
+/-! ### option B `[/1!a][/34x]` + `[35x]` (52B, 54B, 55B, 57B) -/
+
+structure OptB where
+  party : Option Text
+  location : Option Text
+  deriving Repr, DecidableEq
+
+def OptB.parse (input : Text) : Res OptB :=
+  if input.isEmpty then .ok ⟨none, none⟩
+  else match splitNl input with
+    | [] => .err
+    | l0 :: rest =>
+      match parsePartyIdentifier l0 with
+      | .err => .err
+      | .panic => .panic
+      | .ok (some p) =>
+        (match rest with
+         | [] => .ok ⟨some p, none⟩
+         | [loc] =>
+           if blen loc > 35 then .err else if loc.isEmpty then .err
+           else if loc.all isSwiftX then .ok ⟨some p, some loc⟩ else .err
+         | _ => .err)
+      | .ok none =>
+        if !rest.isEmpty then .err
+        else if blen l0 > 35 then .err
+        else if l0.isEmpty then .ok ⟨none, none⟩
+        else if l0.all isSwiftX then .ok ⟨none, some l0⟩ else .err
+def OptB.ser (v : OptB) : Text :=
+  joinNl ((match v.party with | some p => [('/' :: p)] | none => []) ++ (match v.location with | some l => [l] | none => []))
+def OptB.json (slash skipNone : Bool) (v : OptB) : J :=
+  .obj (partyJson slash skipNone v.party ++ [("location", J.optStr v.location)])
+
+/-! ### 90C / 90D `5n3!a15d` (number of entries, currency, sum) -/
+
+structure F90 where
+  number : Nat
+  ccy : Text
+  amt : Dec
+  deriving Repr
+
+def F90.parse (input : Text) : Res F90 :=
+  if !isAsciiT input then .err
+  else if blen input < 5 then .err
+  else
+    let d := Nat.min (input.takeWhile Char.isDigit).length 5
+    if d == 0 then .err
+    else
+      let number := digitsVal (input.take d) 0
+      let rem := input.drop d
+      if blen rem < 3 then .err
+      else match parseCurrency (rem.take 3) with
+        | .ok ccy =>
+          let a := rem.drop 3
+          if a.isEmpty then .err
+          else (match parseAmountWithCurrency a ccy with | some x => .ok ⟨number, ccy, x⟩ | none => .err)
+        | .err => .err
+        | .panic => .panic
+def F90.ser (v : F90) : Text := natDigits v.number ++ v.ccy ++ formatAmount v.amt.normalize (currencyDecimals v.ccy)
+def F90.json (v : F90) : J := .obj [("number", J.nat v.number), ("currency", .str v.ccy), ("amount", J.dec v.amt)]
+
+/-! ### rates: 36 `12d` (exchange rate), 37H `1!a[N]12d` (interest rate) -/
+
+/-- a decimal the way Rust's `Display` for f64 writes it, with a comma: no trailing zeros, no separator for an integer -/
+def plainDecimal (d : Dec) : Text :=
+  let n := d.normalize
+  let ip := natDigits (n.mant / 10 ^ n.scale)
+  if n.scale == 0 then ip else ip ++ [','] ++ padLeft (natDigits (n.mant % 10 ^ n.scale)) n.scale
+
+/-- 36: non-empty, at most 12 bytes, a plain decimal, 0.0001 ≤ rate ≤ 100000 -/
+def F36.parse (input : Text) : Res Dec :=
+  if input.isEmpty then .err
+  else if blen input > 12 then .err
+  else match parseAmount input with
+    | none => .err
+    | some d =>
+      -- rate > 0 and 0.0001 ≤ rate ≤ 100000, on exact decimals: 1 ≤ rate·10^4 and rate ≤ 10^5
+      if d.mant == 0 then .err
+      else if d.mant * 10 ^ 4 < 10 ^ d.scale then .err
+      else if d.mant > 100000 * 10 ^ d.scale then .err
+      else .ok d
+
+structure F37H where
+  ind : Char
+  neg : Bool
+  rate : Dec
+  deriving Repr
+
+def F37H.parse (input : Text) : Res F37H :=
+  match input with
+  | [] => .err
+  | c :: rest =>
+    if c != 'C' && c != 'D' then .err
+    else
+      let (neg, rem) := match rest with | 'N' :: r => (true, r) | _ => (false, rest)
+      if rem.isEmpty then .err
+      else match parseAmountMaxLen rem 12 with
+        | some d => .ok ⟨c, neg, d⟩
+        | none => .err
+def F37H.ser (v : F37H) : Text := [v.ind] ++ (if v.neg then ['N'] else []) ++ formatAmount v.rate.normalize 4
+def F37H.json (v : F37H) : J :=
+  let num := match J.dec v.rate with | .num t => if v.neg then J.num ('-' :: t) else J.num t | j => j
+  .obj [("rate_indicator", .str [v.ind]), ("is_negative", if v.neg then .bool true else .null), ("rate", num)]
+
 end SwiftMT.Fields
